@@ -40,17 +40,17 @@ broadcast use {vstd::std_specs::hash::group_hash_axioms, tstr::group_tstr, affx:
 //@copyfrom file=groups/keep_unique.rs from=<<// ---- specification>> until=<<impl KeepUniqueValidator {>>
 
 /// the block carries the validator's attribute
-pub open spec fn ku_has(b: BlockWithContext) -> bool {
+spec fn ku_has(b: BlockWithContext) -> bool {
     attr_view(b.block.attributes@, "keep-unique"@) is Some
 }
 
-pub open spec fn ku_pattern(b: BlockWithContext) -> Seq<char> {
+spec fn ku_pattern(b: BlockWithContext) -> Seq<char> {
     match attr_view(b.block.attributes@, "keep-unique"@) { Some(p) => p, None => Seq::empty() }
 }
 
 /// `re` is the regex argument made from the block's OWN attribute value: none for an empty value,
 /// else the compiled value (or the compile error)
-pub open spec fn ku_re_ok(b: BlockWithContext, re: Option<Result<regex::Regex, regex::Error>>) -> bool {
+spec fn ku_re_ok(b: BlockWithContext, re: Option<Result<regex::Regex, regex::Error>>) -> bool {
     if ku_pattern(b).len() == 0 {
         re is None
     } else {
@@ -63,7 +63,7 @@ pub open spec fn ku_re_ok(b: BlockWithContext, re: Option<Result<regex::Regex, r
 }
 
 /// V2's proven contract, given that it returned Ok, read on the list of the block's own file
-pub open spec fn ku_inner_ok(b: BlockWithContext, fb: FileBlocks, re: Option<Result<regex::Regex, regex::Error>>, before: Seq<Violation>, after: Seq<Violation>) -> bool {
+spec fn ku_inner_ok(b: BlockWithContext, fb: FileBlocks, re: Option<Result<regex::Regex, regex::Error>>, before: Seq<Violation>, after: Seq<Violation>) -> bool {
     let content = content_of(b.block, fb.file_content@);
     &&& ((forall|i: int| !#[trigger] is_dup(keys_of(re, content), i)) && !(re matches Some(Err(_))) ==> after == before)
     &&& ((exists|i: int| #[trigger] is_dup(keys_of(re, content), i)) ==> exists|i: int, v: Violation| first_dup(keys_of(re, content), i)
@@ -72,7 +72,7 @@ pub open spec fn ku_inner_ok(b: BlockWithContext, fb: FileBlocks, re: Option<Res
 }
 
 /// what block `j` of a file does to the file's list
-pub open spec fn ku_step(fb: FileBlocks, j: int, before: Seq<Violation>, after: Seq<Violation>) -> bool {
+spec fn ku_step(fb: FileBlocks, j: int, before: Seq<Violation>, after: Seq<Violation>) -> bool {
     let b = fb.blocks_with_context@[j];
     if !ku_has(b) {
         after == before // [VO2.post.other_blocks_untouched]
@@ -81,12 +81,12 @@ pub open spec fn ku_step(fb: FileBlocks, j: int, before: Seq<Violation>, after: 
     }
 }
 
-pub open spec fn ku_stepf() -> spec_fn(PathBuf, FileBlocks) -> spec_fn(int, Seq<Violation>, Seq<Violation>) -> bool {
+spec fn ku_stepf() -> spec_fn(PathBuf, FileBlocks) -> spec_fn(int, Seq<Violation>, Seq<Violation>) -> bool {
     |f: PathBuf, fb: FileBlocks| (|j: int, a: Seq<Violation>, b: Seq<Violation>| ku_step(fb, j, a, b))
 }
 
 /// C13: some block carries an uncompilable keep-unique regex and has at least one content line
-pub open spec fn ku_must_err(ctx: ValidationContext) -> bool {
+spec fn ku_must_err(ctx: ValidationContext) -> bool {
     exists|f: PathBuf, j: int| ctx.blocks@.contains_key(f) && 0 <= j < ctx.blocks@[f].blocks_with_context@.len()
         && ku_has(#[trigger] ctx.blocks@[f].blocks_with_context@[j])
         && ku_pattern(ctx.blocks@[f].blocks_with_context@[j]).len() > 0
@@ -97,7 +97,7 @@ pub open spec fn ku_must_err(ctx: ValidationContext) -> bool {
 impl KeepUniqueValidator {
 
 //@stubof group=keep_unique unit=V2
-        only_touches(*file_path, old(violations)@, final(violations)@), // [V2.stub.frame_assumed]
+        forall|k2: PathBuf| k2 != *file_path && #[trigger] final(violations)@.contains_key(k2) ==> old(violations)@.contains_key(k2), // [V2.stub.no_new_files_assumed]
 
 #[verifier::loop_isolation(false)]
 //@unit id=VO2 file=src/validators/keep_unique.rs fn=<<impl ValidatorSync for KeepUniqueValidator::validate>>
@@ -161,9 +161,10 @@ let mut violations: HashMap<PathBuf, Vec<Violation>> = HashMap::new()
 //@edit rule=ghost before=<<} Ok(violations)>>
             proof { lemma_file_done(verif_ents@, it.index@ as int, v0, violations@, ku_stepf()); }
 //@edit rule=ghost before=<<Ok(violations)>>
+        let ghost ctx = *context;
         proof {
-            lemma_visited_all(*context, verif_ents@, violations@, ku_stepf());
-            if ku_must_err(*context) {
+            lemma_visited_all(ctx, verif_ents@, violations@, ku_stepf());
+            if ku_must_err(ctx) {
                 let (f, j) = choose|f: PathBuf, j: int| context.blocks@.contains_key(f) && 0 <= j < context.blocks@[f].blocks_with_context@.len()
                     && ku_has(#[trigger] context.blocks@[f].blocks_with_context@[j])
                     && ku_pattern(context.blocks@[f].blocks_with_context@[j]).len() > 0
